@@ -23,7 +23,10 @@ def timeout_scope(e: Engine, sc: Scope) -> bool:
     if sc.kind != 'with':
         return False
     ce = sc.ast.context_expr
-    if not is_timeout_ctor(e, ce, sc.frame.ctx):
+    fac = timeout_factory(e, ce, sc.frame.ctx)
+    if fac is not None:
+        ce = fac
+    elif not is_timeout_ctor(e, ce, sc.frame.ctx):
         return False
     if not ce.args and not ce.keywords:
         return False
@@ -33,8 +36,33 @@ def timeout_scope(e: Engine, sc: Scope) -> bool:
     return True
 
 
+def timeout_factory(e: Engine, ce, ctx: Ctx):
+    """`with self._bounded_wait():` - the Timeout(...) constructor call a
+    helper whose whole body is `return Timeout(...)` hands back"""
+    if not isinstance(ce, ast.Call) or is_timeout_ctor(e, ce, ctx):
+        return None
+    try:
+        r = e.r.resolve_call(ce, ctx)
+    except Exception:
+        return None
+    if len(r.targets) != 1:
+        return None
+    t = r.targets[0]
+    body = [st for st in t.func.node.body
+            if not (isinstance(st, ast.Expr) and
+                    isinstance(st.value, ast.Constant))]
+    if len(body) == 1 and isinstance(body[0], ast.Return) and \
+            body[0].value is not None and \
+            is_timeout_ctor(e, body[0].value, Ctx(t.func, t.self_cls)
+                            if hasattr(t, 'self_cls') else Ctx(t.func)):
+        return body[0].value
+    return None
+
+
 def timeout_arg_text(sc: Scope) -> str:
     ce = sc.ast.context_expr
+    if isinstance(ce, ast.Call) and not (ce.args or ce.keywords):
+        return ast.unparse(ce)
     a0 = ce.args[0] if ce.args else (ce.keywords[0].value if ce.keywords
                                      else None)
     return ast.unparse(a0) if a0 is not None else ''
@@ -1248,3 +1276,27 @@ def applied_call(e, ctx, call):
     if i >= len(call.args):
         return None
     return call.args[i], list(call.args[len(own):])
+
+
+def loop_alias_attrs(func_node, name):
+    """attributes of self a local stands for when its only binding is
+    `for <name> in (self.a, self.b, ...)`; None otherwise"""
+    import ast as _ast
+    from ..model import walk_own
+    stores = [x for x in walk_own(func_node) if isinstance(x, _ast.Name)
+              and x.id == name and isinstance(x.ctx, (_ast.Store, _ast.Del))]
+    loops = [f for f in walk_own(func_node) if isinstance(f, _ast.For) and
+             isinstance(f.target, _ast.Name) and f.target.id == name]
+    if len(stores) != 1 or len(loops) != 1:
+        return None
+    it = loops[0].iter
+    if not isinstance(it, (_ast.Tuple, _ast.List)) or not it.elts:
+        return None
+    out = []
+    for el in it.elts:
+        if isinstance(el, _ast.Attribute) and \
+                isinstance(el.value, _ast.Name) and el.value.id == 'self':
+            out.append(el.attr)
+        else:
+            return None
+    return out
